@@ -662,10 +662,10 @@ fn models(tier: Tier) -> Vec<(String, Arc<M>, Vec<Plan>)> {
             l,
             m,
             vec![
-                Plan::Full { depth: 5 },
+                Plan::Full { depth: 6 },
                 Plan::Dev {
                     k: 3,
-                    depth: 48,
+                    depth: 24,
                     default: Arc::new(move |_| d),
                 },
             ],
